@@ -6,6 +6,7 @@ from dataclasses import dataclass
 from typing import Tuple, TYPE_CHECKING, Optional
 
 from nrel.hive.dispatcher.instruction_generator import assignment_ops
+from nrel.hive.model.membership import PUBLIC_MEMBERSHIP_ID
 from nrel.hive.state.vehicle_state.charging_base import ChargingBase
 
 if TYPE_CHECKING:
@@ -57,10 +58,16 @@ class Dispatcher(InstructionGenerator):
                     return False
                 elif not vehicle.driver_state.available:
                     return False
+                elif membership_id == PUBLIC_MEMBERSHIP_ID:
+                    # the pass for vehicles that belong to no fleet (they serve only public requests)
+                    if not vehicle.membership.public:
+                        return False
                 elif (
                     membership_id is not None
-                    and not vehicle.membership.grant_access_to_membership_id(membership_id)
+                    and membership_id not in vehicle.membership.memberships
                 ):
+                    # a fleet's pass takes the members of that fleet only: a vehicle without any
+                    # membership is not granted access by the fleet's requests
                     return False
 
                 mechatronics = environment.mechatronics.get(vehicle.mechatronics_id)
@@ -121,7 +128,7 @@ class Dispatcher(InstructionGenerator):
         # order (and with it the outcome for vehicles in several fleets) depend on the string hash seed
         fleet_ids: Tuple[Optional[MembershipId], ...]
         if len(environment.fleet_ids) > 0:
-            fleet_ids = tuple(sorted(environment.fleet_ids))
+            fleet_ids = tuple(sorted(environment.fleet_ids)) + (PUBLIC_MEMBERSHIP_ID,)
         else:
             fleet_ids = (None,)
 
